@@ -146,3 +146,19 @@ type D4 int
 type D5 int
 type D6 int
 type D7 int
+
+// Named twins of every basic kind (C02: named types encode as their underlying kind).
+type NBool bool
+type NInt int
+type NInt8 int8
+type NInt16 int16
+type NInt32 int32
+type NInt64 int64
+type NUint uint
+type NUint8 uint8
+type NUint16 uint16
+type NUint32 uint32
+type NUint64 uint64
+type NFloat32 float32
+type NFloat64 float64
+type NString string
